@@ -20,7 +20,7 @@ VARIABLES l,     \* next record
 vars == <<l, cnt>>
 Rec == TraceLog[l]
 
-CntKeys == {"dev_loss_switch_drop", "dev_negative_near_knot", "dev_read_past_end", "read_past_end", "tables", "queries", "clauses", "roundtrips", "mono_ulp_breaks", "xs", "eloss", "range", "invrange",
+CntKeys == {"dev_loss_switch_drop", "dev_loss_negative_rounding", "dev_negative_near_knot", "dev_read_past_end", "read_past_end", "tables", "queries", "clauses", "roundtrips", "mono_ulp_breaks", "xs", "eloss", "range", "invrange",
             "generic", "loss", "loss_steps", "msc", "msc_partial"}
 Bump(c, k, d) == [c EXCEPT ![k] = @ + d]
 
@@ -86,20 +86,24 @@ LossFails(r) ==
   \cup {<<i, "LossAtRange", r.steps[i]>> : i \in {j \in DOMAIN r.steps : ~LossAtRange(r, r.steps[j])}}
   \cup {<<b[1], "LossMonotone", <<r.steps[b[1]], r.steps[b[2]]>>>> : b \in LossBreaks(r.steps)}
 LossDevs(fails) == {f \in fails : f[2] = "LossMonotone" /\ LossSwitchDrop(f[3][1], f[3][2])}
+LossDevsNeg(r, fails) == {f \in fails : f[2] = "LossBounds" /\ LossNegativeRounding(r, f[3])}
 TLoss ==
   /\ Rec.e = "Loss"
   /\ Len(Rec.steps) >= 1
   /\ \A i \in DOMAIN Rec.steps : /\ Rec.zero < Rec.steps[i].s /\ Rec.steps[i].s <= Rec.range
                                   /\ Rec.steps[i].fin => Rec.steps[i].l <= Rec.steps[i].lhi
   /\ \E i \in DOMAIN Rec.steps : Rec.steps[i].s = Rec.range       \* the sweep reaches the range
+  /\ Rec.zlo <= Rec.zero
   /\ LET fails == LossFails(Rec)
          devs == LossDevs(fails)
-         bad == fails \ devs IN
+         dneg == LossDevsNeg(Rec, fails)
+         bad == (fails \ devs) \ dneg IN
      /\ IF bad = {} THEN TRUE
         ELSE PrintT(<<"FAIL", l, <<"loss", Rec.real, Rec.lim>>, Named(bad)>>) /\ FALSE
-     /\ cnt' = Bump(Bump(Bump(Bump(cnt, "loss", 1), "loss_steps", Len(Rec.steps)),
+     /\ cnt' = Bump(Bump(Bump(Bump(Bump(cnt, "loss", 1), "loss_steps", Len(Rec.steps)),
                          "clauses", 2 * Len(Rec.steps) + 1),
-                    "dev_loss_switch_drop", IF devs = {} THEN 0 ELSE 1)
+                         "dev_loss_switch_drop", IF devs = {} THEN 0 ELSE 1),
+                    "dev_loss_negative_rounding", Cardinality(dneg))
 
 \* ---- Msc ---------------------------------------------------------------------------
 MscFails(r) ==
